@@ -455,4 +455,334 @@ theorem cpRevoke_preserves {n n' : Node} {c : Nat} (hI : Inv n) (h : n.cpRevoke 
       exact setChan_hnext_transfer hI c _ rfl rfl
     · simp at h
 
+
+/-! ### approvals, preimages, pruning, restart -/
+
+/-- hypothesis of `C06_partial`: a hash is newly approved only while nothing is outgoing in flight for it -/
+def FreshApproval (n : Node) : Op → Prop
+  | .approve h _ => n.invoices h = none → ∀ c, c < n.nch → outL n c h = 0
+  | _ => True
+
+theorem sumCh_eq_zero {n : Nat} {f : Nat → Nat} (h : ∀ c, c < n → f c = 0) : sumCh n f = 0 := by
+  rw [sumCh_congr (g := fun _ => 0) h, sumCh_zero]
+
+theorem approve_preserves {n n' : Node} {h : Hash} {inv : Invoice} {r : ARes} (hI : Inv n)
+    (hf : n.invoices h = none → ∀ c, c < n.nch → outL n c h = 0)
+    (ha : n.approve h inv = (n', r)) : Inv n' := by
+  unfold Node.approve at ha
+  cases hinv : n.invoices h with
+  | some old => simp only [hinv] at ha; cases ha; exact hI
+  | none =>
+    simp only [hinv] at ha
+    cases ha
+    have hz := hf hinv
+    have hg : ∀ h' c, getIn (upd n.payments h (some ((n.payments h).getD Payment.new)) h') c = getIn (n.payments h') c ∧
+        getOut (upd n.payments h (some ((n.payments h).getD Payment.new)) h') c = getOut (n.payments h') c := by
+      intro h' c
+      simp only [upd]
+      split
+      · rename_i e; subst e
+        cases n.payments h' <;> simp [getIn, getOut, Payment.new]
+      · exact ⟨rfl, rfl⟩
+    refine ⟨?_, ?_, ?_, ?_, ?_⟩
+    · intro h' c hc
+      show getIn (upd n.payments h _ h') c ≤ inL n c h'
+      rw [(hg h' c).1]; exact hI.inSync h' c hc
+    · intro h' hne c hc
+      show outL n c h' ≤ getOut (upd n.payments h _ h') c
+      rw [(hg h' c).2]
+      by_cases e : h' = h
+      · subst e; rw [hz c hc]; exact Nat.zero_le _
+      · refine hI.outSync h' ?_ c hc
+        have : upd n.invoices h (some inv) h' = n.invoices h' := by simp [upd, e]
+        intro hn; exact hne (by show upd n.invoices h (some inv) h' = none; rw [this]; exact hn)
+    · intro h' inv' hinv'
+      have hinv'' : upd n.invoices h (some inv) h' = some inv' := hinv'
+      show sumCh n.nch (fun c => outL n c h') * 1000 ≤ sumCh n.nch (fun c => inL n c h') * 1000 + inv'.amount + n.pol.maxFee
+      by_cases e : h' = h
+      · subst e
+        rw [sumCh_eq_zero (f := fun c => outL n c h') hz]
+        omega
+      · simp only [upd, e, if_false] at hinv''
+        exact hI.bal h' inv' hinv''
+    · intro h'; rfl
+    · intro h' hne
+      have hne' : upd n.invoices h (some inv) h' ≠ none := hne
+      show h' ∈ h :: n.known
+      by_cases e : h' = h
+      · subst e; exact List.mem_cons_self
+      · simp only [upd, e, if_false] at hne'
+        exact List.mem_cons_of_mem _ (hI.known h' hne')
+
+theorem fulfill_preserves {n : Node} {h : Hash} (hI : Inv n) : Inv (n.fulfill h).1 := by
+  unfold Node.fulfill
+  cases hp : n.payments h with
+  | none => exact hI
+  | some p =>
+    simp only
+    split
+    · exact hI
+    · refine hI.transfer rfl rfl rfl ?_ (fun _ => ⟨rfl, rfl⟩) rfl (fun _ hk => hk)
+      intro h' c
+      simp only [upd]
+      split
+      · rename_i e; subst e; rw [hp]; exact ⟨rfl, rfl⟩
+      · exact ⟨rfl, rfl⟩
+
+theorem getIn_none (c : Nat) : getIn none c = 0 := rfl
+theorem getOut_none (c : Nat) : getOut none c = 0 := rfl
+
+/-- pruning: invoices and payment entries only disappear, and never the entry of a hash that keeps its invoice -/
+theorem prune_preserves {n : Node} (hI : Inv n) (inv1 : Hash → Option Invoice) (pay2 : Hash → Option Payment)
+    (d : Disk) (hinv : ∀ h, inv1 h = none ∨ inv1 h = n.invoices h)
+    (hpay : ∀ h, pay2 h = none ∨ pay2 h = n.payments h)
+    (hkeep : ∀ h, inv1 h ≠ none → pay2 h = n.payments h) (hd : ∀ h, d.invoices h = inv1 h) :
+    Inv { n with invoices := inv1, payments := pay2, disk := d } := by
+  refine ⟨?_, ?_, ?_, hd, ?_⟩
+  · intro h c hc
+    show getIn (pay2 h) c ≤ inL n c h
+    rcases hpay h with e | e
+    · rw [e, getIn_none]; exact Nat.zero_le _
+    · rw [e]; exact hI.inSync h c hc
+  · intro h hne c hc
+    have hne' : inv1 h ≠ none := hne
+    show outL n c h ≤ getOut (pay2 h) c
+    rw [hkeep h hne']
+    refine hI.outSync h ?_ c hc
+    rcases hinv h with e | e
+    · exact absurd e hne'
+    · rw [← e]; exact hne'
+  · intro h inv hi
+    have hi' : inv1 h = some inv := hi
+    rcases hinv h with e | e
+    · rw [e] at hi'; cases hi'
+    · exact hI.bal h inv (e ▸ hi')
+  · intro h hne
+    have hne' : inv1 h ≠ none := hne
+    refine hI.known h ?_
+    rcases hinv h with e | e
+    · exact absurd e hne'
+    · rw [← e]; exact hne'
+
+theorem heartbeat_preserves {n n' : Node} {now : Nat} (hI : Inv n) (hh : n.heartbeat now = some n') : Inv n' := by
+  unfold Node.heartbeat at hh
+  split at hh
+  · cases hh
+  · injection hh with hh
+    subst hh
+    have hinv : ∀ h, n.inv1 now h = none ∨ n.inv1 now h = n.invoices h := by
+      intro h; simp only [Node.inv1]; split
+      · exact Or.inl rfl
+      · exact Or.inr rfl
+    have hpay : ∀ h, n.pay2 now h = none ∨ n.pay2 now h = n.payments h := by
+      intro h; simp only [Node.pay2, Node.pay1]
+      split
+      · exact Or.inl rfl
+      · split
+        · exact Or.inl rfl
+        · exact Or.inr rfl
+    have hkeep : ∀ h, n.inv1 now h ≠ none → n.pay2 now h = n.payments h := by
+      intro h hne
+      have hprh : n.pr now h = false := by
+        cases e : n.pr now h with
+        | false => rfl
+        | true => simp [Node.inv1, e] at hne
+      have hfw : n.fw now h = false := by
+        simp only [Node.fw]
+        cases hp1 : n.pay1 now h with
+        | none => rfl
+        | some p =>
+          simp only
+          have : (n.inv1 now h).isNone = false := by
+            cases hi : n.inv1 now h with
+            | none => exact absurd hi hne
+            | some _ => rfl
+          simp [this]
+      simp [Node.pay2, Node.pay1, hfw, hprh]
+    split
+    · exact prune_preserves hI _ _ _ hinv hpay hkeep (fun _ => rfl)
+    · rename_i hany
+      refine prune_preserves hI _ _ _ hinv hpay hkeep ?_
+      intro h
+      rw [hI.disk h]
+      have hprh : n.pr now h = false := by
+        cases e : n.pr now h with
+        | false => rfl
+        | true =>
+          exfalso
+          by_cases hk : h ∈ n.known
+          · apply hany
+            rw [List.any_eq_true]
+            exact ⟨h, hk, by simp [e]⟩
+          · have : n.invoices h = none := by
+              by_cases hn : n.invoices h = none
+              · exact hn
+              · exact absurd (hI.known h hn) hk
+            simp [Node.pr, this] at e
+      simp [Node.inv1, hprh]
+
+
+/-! ### restart -/
+
+theorem getIn_restoreChan (chans : Nat → ChanSt) (P : Hash → Option Payment) (k : Nat) (h : Hash) (c : Nat) :
+    getIn (restoreChan chans P k h) c =
+      if h ∈ keys (chans k).hcur (chans k).ccur (chans k).hcur (chans k).ccur then
+        (if c = k then inVal (chans k).hcur (chans k).ccur h else getIn (P h) c)
+      else getIn (P h) c := by
+  unfold restoreChan
+  split
+  · cases P h <;> simp [getIn, Payment.apply, upd, Payment.new]
+  · rfl
+
+theorem getOut_restoreChan (chans : Nat → ChanSt) (P : Hash → Option Payment) (k : Nat) (h : Hash) (c : Nat) :
+    getOut (restoreChan chans P k h) c =
+      if h ∈ keys (chans k).hcur (chans k).ccur (chans k).hcur (chans k).ccur then
+        (if c = k then outVal (chans k).hcur (chans k).ccur h else getOut (P h) c)
+      else getOut (P h) c := by
+  unfold restoreChan
+  split
+  · cases P h <;> simp [getOut, Payment.apply, upd, Payment.new]
+  · rfl
+
+/-- after `restore_payments` on the channels `0 … k-1` the rebuilt entries carry exactly the ledger values -/
+theorem restoreAll_spec (chans : Nat → ChanSt) (base : Hash → Option Payment)
+    (hb : ∀ h c, getIn (base h) c = 0 ∧ getOut (base h) c = 0) (k : Nat) (h : Hash) (c : Nat) :
+    getIn (restoreAll chans k base h) c = (if c < k then inVal (chans c).hcur (chans c).ccur h else 0) ∧
+    getOut (restoreAll chans k base h) c = (if c < k then outVal (chans c).hcur (chans c).ccur h else 0) := by
+  induction k with
+  | zero => simp only [restoreAll, Nat.not_lt_zero, if_false]; exact hb h c
+  | succ k ih =>
+    simp only [restoreAll]
+    rw [getIn_restoreChan, getOut_restoreChan]
+    by_cases hk : h ∈ keys (chans k).hcur (chans k).ccur (chans k).hcur (chans k).ccur
+    · simp only [hk, if_true]
+      by_cases e : c = k
+      · subst e; simp
+      · simp only [e, if_false]
+        rw [ih.1, ih.2]
+        have : (c < k + 1) = (c < k) := by
+          apply propext; constructor <;> intro <;> omega
+        simp only [this]
+        trivial
+    · simp only [hk, if_false]
+      rw [ih.1, ih.2]
+      have z := not_mem_keys hk
+      by_cases e : c = k
+      · subst e
+        simp only [Nat.lt_irrefl, if_false, Nat.lt_succ_self, if_true]
+        omega
+      · have : (c < k + 1) = (c < k) := by
+          apply propext; constructor <;> intro <;> omega
+        simp only [this]
+        trivial
+
+theorem restart_sync (n : Node) (h : Hash) (c : Nat) (hc : c < n.nch) :
+    getIn (n.restart.payments h) c = inL n c h ∧ getOut (n.restart.payments h) c = outL n c h := by
+  have := restoreAll_spec n.chans
+    (fun h => if (n.disk.invoices h).isSome then some Payment.new
+              else if n.disk.pre h then some { Payment.new with pre := true } else none)
+    (by intro h c; dsimp only; split
+        · exact ⟨rfl, rfl⟩
+        · split <;> exact ⟨rfl, rfl⟩) n.nch h c
+  simp only [hc, if_true] at this
+  exact this
+
+theorem restart_preserves {n : Node} (hI : Inv n) : Inv n.restart := by
+  refine ⟨?_, ?_, ?_, ?_, ?_⟩
+  · intro h c hc
+    have := (restart_sync n h c hc).1
+    show getIn (n.restart.payments h) c ≤ inL n c h
+    omega
+  · intro h _ c hc
+    have := (restart_sync n h c hc).2
+    show outL n c h ≤ getOut (n.restart.payments h) c
+    omega
+  · intro h inv hi
+    have hi' : n.disk.invoices h = some inv := hi
+    rw [hI.disk h] at hi'
+    exact hI.bal h inv hi'
+  · intro h; rfl
+  · intro h hne
+    have hne' : n.disk.invoices h ≠ none := hne
+    rw [hI.disk h] at hne'
+    exact hI.known h hne'
+
+/-! ### one request, request lists -/
+
+theorem init_inv (nch : Nat) (pol : Policy) : Inv (Node.init nch pol) := by
+  refine ⟨?_, ?_, ?_, ?_, ?_⟩
+  · intro h c _; exact Nat.zero_le _
+  · intro h hne; exact absurd rfl hne
+  · intro h inv hi; cases hi
+  · intro h; rfl
+  · intro h hne; exact absurd rfl hne
+
+theorem step_preserves {n n' : Node} {op : Op} {acc : Bool} (hI : Inv n) (hf : FreshApproval n op)
+    (hs : n.step op = some (n', acc)) : Inv n' := by
+  unfold Node.step at hs
+  have hI0 : Inv { n with known := op.mentioned ++ n.known } :=
+    hI.transfer rfl rfl rfl (fun _ _ => ⟨rfl, rfl⟩) (fun _ => ⟨rfl, rfl⟩) rfl
+      (fun _ hk => List.mem_append_right _ hk)
+  generalize hn0 : ({ n with known := op.mentioned ++ n.known } : Node) = n0 at hs hI0
+  cases op with
+  | cpSign c r i =>
+    simp only [Node.exec] at hs
+    cases hr : n0.cpSign c r i with
+    | mk n1 v =>
+      cases v with
+      | ok => simp only [hr] at hs; cases hs; exact cpSign_preserves hI0 hr
+      | err => simp only [hr] at hs; cases hs; exact hI0
+      | panic => simp [hr] at hs
+  | hValidate c r i =>
+    simp only [Node.exec] at hs
+    cases hr : n0.hValidate c r i with
+    | mk n1 v =>
+      cases v with
+      | ok => simp only [hr] at hs; cases hs; exact hValidate_preserves hI0 hr
+      | err => simp only [hr] at hs; cases hs; exact hI0
+      | panic => simp [hr] at hs
+  | revoke c =>
+    simp only [Node.exec] at hs
+    cases hr : n0.revoke c with
+    | mk n1 v =>
+      cases v with
+      | ok => simp only [hr] at hs; cases hs; exact revoke_preserves hI0 hr
+      | err => simp only [hr] at hs; cases hs; exact hI0
+      | panic => simp [hr] at hs
+  | cpRevoke c =>
+    simp only [Node.exec] at hs
+    cases hr : n0.cpRevoke c with
+    | mk n1 v =>
+      cases v with
+      | ok => simp only [hr] at hs; cases hs; exact cpRevoke_preserves hI0 hr
+      | err => simp only [hr] at hs; cases hs; exact hI0
+      | panic => simp only [hr] at hs; cases hs; exact hI0
+  | approve h inv =>
+    simp only [Node.exec] at hs
+    have hf0 : n0.invoices h = none → ∀ c, c < n0.nch → outL n0 c h = 0 := by
+      subst hn0; exact hf
+    cases hr : n0.approve h inv with
+    | mk n1 v =>
+      have := approve_preserves hI0 hf0 hr
+      cases v with
+      | added => simp only [hr] at hs; cases hs; exact this
+      | same => simp only [hr] at hs; cases hs; exact hI0
+      | different => simp only [hr] at hs; cases hs; exact hI0
+  | fulfill h =>
+    simp only [Node.exec] at hs
+    cases hs
+    exact fulfill_preserves hI0
+  | heartbeat now =>
+    simp only [Node.exec] at hs
+    cases hh : n0.heartbeat now with
+    | none => simp [hh] at hs
+    | some n1 =>
+      simp only [hh, Option.map_some] at hs
+      cases hs
+      exact heartbeat_preserves hI0 hh
+  | restart =>
+    simp only [Node.exec] at hs
+    cases hs
+    exact restart_preserves hI0
+
 end VlsModel.Payments
